@@ -166,7 +166,12 @@ def is_dtype(dtype: npt.DTypeLike, supported_dtypes: tuple[npt.DTypeLike, ...]) 
     if isinstance(dtype, np.dtype) and dtype.fields:
         return dtype in supported_dtypes
 
-    return _np_isdtype(dtype, supported_dtypes)
+    # A supported structured dtype must not make every field-less void dtype ("V4", np.void)
+    # acceptable: numpy.isdtype compares scalar types, and a structured dtype's is numpy.void.
+    plain_dtypes = tuple(
+        d for d in supported_dtypes if not (isinstance(d, np.dtype) and d.fields)
+    )
+    return bool(plain_dtypes) and _np_isdtype(dtype, plain_dtypes)
 
 
 def validate_dtype(dtype: npt.DTypeLike, supported_dtypes: tuple[npt.DTypeLike, ...]) -> None:
